@@ -1,6 +1,6 @@
 (* C19 correspondence: the implementation's observations, recomputed by the model. *)
 From PV Require Import Lib.Base Cbor.Dec.
-From PV Require Import C19.Model.
+From PV Require Import C19.Model C19.Base58.
 From PV Require C18.Model.
 Open Scope Z_scope.
 
@@ -13,6 +13,10 @@ Inductive case :=
 | CDec (bs : list Z) (res : outcome (list Z * Z))
 (* ByronAddress::from_base58(base58(bs)), |bs| <= 132 (base58 text made by the harness) *)
 | CB58 (bs : list Z) (res : outcome (list Z * Z))
+(* ByronAddress::new(p, c).to_base58() *)
+| CB58Enc (p : list Z) (c : Z) (s : list Z)
+(* ByronAddress::from_base58 on an arbitrary string *)
+| CB58Dec (s : list Z) (res : outcome (list Z * Z))
 (* Address::from_bytes(bs) with a type-8 header: the Byron content, or the error class *)
 | CAddr (bs : list Z) (res : outcome (list Z * Z)).
 
@@ -36,6 +40,8 @@ Definition case_out (c : case) : out :=
   | CEnc p c _ => OVec (byron_to_vec (p, c))
   | CDec bs _ => ORes (m_from_bytes bs)
   | CB58 bs _ => ORes (m_from_bytes bs)
+  | CB58Enc p c _ => OVec (to_base58 b58_encode (p, c))
+  | CB58Dec s _ => ORes (from_base58 skip_item b58_decode s)
   | CAddr bs _ => ORes (m_address_from_bytes bs)
   end.
 Definition case_ok (c : case) : bool :=
@@ -44,5 +50,7 @@ Definition case_ok (c : case) : bool :=
   | CEnc p c vec => C18.Model.bytes_eqb (byron_to_vec (p, c)) vec
   | CDec bs res => res_eqb (m_from_bytes bs) res
   | CB58 bs res => res_eqb (m_from_bytes bs) res
+  | CB58Enc p c s => C18.Model.bytes_eqb (to_base58 b58_encode (p, c)) s
+  | CB58Dec s res => res_eqb (from_base58 skip_item b58_decode s) res
   | CAddr bs res => res_eqb (m_address_from_bytes bs) res
   end.
